@@ -16,6 +16,16 @@ CHECKS = {
    technique="TLA+ spec Stat.tla (ghost + ring refinement); TLC model checking; TLC trace validation of real executions in both directions",
    ref="DESIGN.md §6 C02"),
 }
+CHECKS["C04"] = dict(
+   text="TLC model-checks the accounting rules of Entry.tla (in-flight count = open passed entries, pass xor block, completion with batch count and response time, inbound mirroring) over all interleavings of a bounded alphabet; TLC behaviours and seeded random histories with rules of every family producing blocks are executed through the global slot chain, and after every call the readings of every touched resource node and of the global inbound node (sums, in-flight, min/avg rt) are validated by TLC against the ghost-event oracle",
+   note="sequential calls; decisions of foreign rule families are taken as observed; error events and throttling sleeps are outside the histories; bounded scope for the exhaustive part",
+   technique="TLA+ spec Entry.tla; TLC model checking; TLC-generated behaviours replayed into the code; TLC trace validation of recorded executions",
+   ref="DESIGN.md §6 C04")
+CHECKS["C05"] = dict(
+   text="TLC model-checks the cap invariants (in-flight <= T per resource and per parameter value) on Entry.tla; every decision of TLC-generated behaviours and of random histories with only isolation / hotspot-concurrency rules (positional, negative, keyed parameters, overrides, batches) is validated by TLC: admitted iff it fits, rejection typed isolation resp. hotspot and naming a rule that is exceeded; block type and rule come from the structured BlockError recorded on the real global chain",
+   note="thresholds and batch counts >= 1; a batch on a per-value counter may weigh 1..n (either accepted); bounded scope for the exhaustive part",
+   technique="TLA+ spec Entry.tla; TLC model checking; TLC-generated behaviours replayed into the code; TLC trace validation of recorded executions",
+   ref="DESIGN.md §6 C05")
 NOT_APPLICABLE = {}
 
 def main():
